@@ -68,6 +68,12 @@ def candidates(m):
                 o.append(LoopAddPkt(l, ((a, 'V1'),)))             # a second packet for the scalar loop (fails only there)
                 o.append(LoopAddPkt(l, ((a, 'V1'), (b, 'V2'))))
             o.append(LoopAddPkt(l, ()))
+            if own:
+                # a packet built by cif_packet_create from a names array that repeats one item (the only way to get two entries
+                # for one item into a packet): it cannot be stored, wherever the repetition sits
+                o.append(AddPktDupNames(l, (a, a.upper(), b)))
+                o.append(AddPktDupNames(l, (b, a, a.upper())))
+                o.append(AddPktDupNames(l, (a, b, a)))
             for name in ['_a', '_A', 'bad', '_it', '_s', '_p', '_c'] + own[:1]:
                 o.append(LoopAddItem(l, name, 'V1'))
             for cat in ['', None, 'q']:
@@ -128,6 +134,17 @@ class SessionBadUpdate(Op):
         return [] if ans[-1].get('rc') == WRONG_LOOP else ['%r: update answered %r, CIF_WRONG_LOOP expected' % (self, ans[-1])]
 
 
+class AddPktDupNames(Op):
+    rc_index = -1
+
+    def lines(self):
+        l, names = self.args
+        return ['pkt.create P1 %d %s' % (len(names), ' '.join(U(n) for n in names)), 'loop.addpkt %s P1' % l]
+
+    def step(self, m, ans):
+        return []
+
+
 class SecondIterOpen(Op):
     """while the iteration of a non-plain context is open, cif_loop_get_packets on the same CIF is refused (one transaction per
     CIF); the refusal must not disturb the open iteration nor what was done through it"""
@@ -144,7 +161,7 @@ class SecondIterOpen(Op):
 
 def must_fail(m, op):
     mm = m.clone()
-    if isinstance(op, (StaleLoopCall, FailingIterUpdate, SessionBadUpdate, SecondIterOpen)):
+    if isinstance(op, (StaleLoopCall, FailingIterUpdate, SessionBadUpdate, SecondIterOpen, AddPktDupNames)):
         return True
     try:
         if isinstance(op, LoopAddPkt):
